@@ -100,7 +100,7 @@ Variable E : env.
 Variable subrev : mangler -> xstate -> tval -> outcome tval.
 Variable m : mangler.
 
-Definition skipped (e : melem) : bool := negb (exported (sfo_name (me_in e))).
+Definition skipped (e : melem) : bool := negb (xexported (sfo_name (me_in e))).
 
 (* out is what the loop produces from the groups, field by field *)
 Inductive groups_rel : list melem -> list (list fvt) -> list fvt -> Prop :=
